@@ -708,6 +708,19 @@ def run(ctx):
         for ref in ('', '#f', 'x', '../y', '?q=1', '/r', '.', 'g/./h?k=v#z'):
             for as_url in (False, True):
                 run_case(ctx, {'kind': 'nav', 'base': base, 'refs': [ref], 'ref_as_url': as_url}, check, 'combo', None, shr)
+    # empty-path bases of schemes the library has no table entry for (and of one it lists as not using a network
+    # location, written with a host), reached through an earlier navigation / normalize(): merging against an empty
+    # base path under an authority starts at "/" whatever the scheme
+    for bi, base in enumerate(['s3://bucket', 'foo://h?x=1', 'news://srv', 'x-app://host#f', 'S3://Bucket:99', 'foo://u@h']):
+        if bi % ctx.nshards != ctx.shard % 6:
+            continue
+        for first in ('?v=1', '', '#f', None):
+            for ref in ('.//x', 'a/..//x', './/', 'x', './x', '..//x/.', '//', '.'):
+                if ref == '//':
+                    continue
+                for prep in (None, 'normalize', 'navigated'):
+                    run_case(ctx, {'kind': 'nav', 'base': base, 'refs': ([first] if first is not None else []) + [ref],
+                                   'ref_as_url': False, 'prep': prep}, check, 'emptypath', None, shr)
     ctx.stats.count('systematic_refs_done', i)
     explore_cases(ctx, gen, check, {'quick': 30000, 'thorough': 750000}[ctx.tier], 'nav')
 
